@@ -285,8 +285,29 @@ create_1d_filter (int              width,
 	    p++;
         }
 
-	/* Normalize, with error diffusion */
 	p -= width;
+
+	if (total == 0)
+	{
+	    /* Every coefficient rounded to zero (the kernels do not
+	     * overlap a sample, or the scale is tiny): dividing by the
+	     * total would produce NaNs. Fall back to the nearest sample.
+	     */
+	    int nearest = floor (frac - x1);
+
+	    if (nearest < 0)
+		nearest = 0;
+	    else if (nearest >= width)
+		nearest = width - 1;
+
+	    for (x = 0; x < width; ++x)
+		p[x] = (x == nearest)? pixman_fixed_1 : 0;
+
+	    p += width;
+	    continue;
+	}
+
+	/* Normalize, with error diffusion */
         total = 65536.0 / total;
         new_total = 0;
 	e = 0.0;
